@@ -12,7 +12,7 @@ LEVEL = "exploration"
 GAPS = ("exploitability", "l1_norm", "l2_norm", "linf_norm")
 RULE = ("(a) Exhaustive lattice: for a drawn game (superadditive for the SA computers, SAM for sam_apx_r) bounds are computed "
         "for EVERY knowledge set of n=3 (8) / n=4 (1024) and compared along EVERY edge K -> K+{S} (12 / 5120 edges). "
-        "(b) Hypothesis-sampled reveal paths from a drawn K0 to full knowledge for n=5..7. Oracles per edge: lower never "
+        "(b) Hypothesis-sampled reveal paths from a drawn K0 to full knowledge for n=5..7. (c) reveal paths driven through ICG_Gym over 2-3 episodes with reset() between them and a cyclic list of hidden games (n=3..5). Oracles per edge: lower never "
         "decreases, upper never increases, each registered gap function (taken from the GAP_FUNCTIONS registry) non-increasing, "
         ">= 0, == 0 at full knowledge, and equal to an independent gap oracle evaluated on the same bounds. Non-trivial: a "
         "case containing an edge on which some OTHER coalition's interval strictly shrinks (propagation); distinct = hash of "
@@ -89,6 +89,8 @@ def check_case(case: dict) -> Result:
     mins = minimal_masks(n)
     rest = [s for s in range(1 << n) if s not in mins]
     propagated = 0
+    if case["kind"] == "envpath":
+        return _check_envpath(case, res, names, gf)
     if case["kind"] == "lattice":
         states = {}
         for bits in range(1 << len(rest)):
@@ -136,6 +138,71 @@ def check_case(case: dict) -> Result:
     return res
 
 
+def _check_envpath(case: dict, res: Result, names, gf) -> Result:
+    """Reveal paths driven through ICG_Gym over several episodes (reset between them): what the agent, the solvers and
+    evaluate() actually experience.  Same edge / state oracles, measured on the environment's incomplete game."""
+    from incomplete_cooperative.coalitions import minimal_game_coalitions
+    from incomplete_cooperative.icg_gym import ICG_Gym
+    from .. import libgames, repo
+    specs = case["games"]
+    n = case["game"]["n"]
+    comp = case["computer"]
+    counter = {"calls": 0}
+
+    def gen():
+        spec = specs[counter["calls"] % len(specs)]
+        counter["calls"] += 1
+        return libgames.spec_game(spec)
+
+    inc = repo.new_game(n, comp)
+    env = ICG_Gym(inc, gen, minimal_game_coalitions(inc), gf[case["gap"]], done_after_n_actions=None)
+    propagated = 0
+    for ep, order in enumerate(case["episodes"]):
+        if ep > 0:
+            env.reset()
+        cur = (counter["calls"] - 1) % len(specs)
+        v = libgames.spec_values(specs[cur])
+        cls = specs[cur].get("cls", "float")
+        state = _measure(inc, n, names, gf)
+        _state_checks(res, n, cls, state, names, f"{comp} episode {ep} start", full=False)
+        for step, a in enumerate(order):
+            if not env.action_masks()[a]:
+                continue
+            out = env.step(a)
+            s_ = out[4]["chosen_coalition"]
+            nxt = _measure(inc, n, names, gf)
+            full = not any(env.action_masks())
+            _state_checks(res, n, cls, nxt, names, f"{comp} episode {ep} after step {step} (coalition {s_})", full=full)
+            if _edge(res, n, cls, v, state, nxt, s_, f"{comp} episode {ep} step {step}: reveal of coalition {s_} through the environment", names):
+                propagated += 1
+            if abs(float(out[1]) + nxt[2][case["gap"]]) > 0:
+                res.fail(f"reward!=-gap :: episode {ep} step {step}: returned reward {float(out[1])!r}, gap {nxt[2][case['gap']]!r}")
+            state = nxt
+            if res.failures:
+                break
+        if res.failures:
+            break
+    res.nontrivial = propagated > 0 and len(case["episodes"]) >= 2
+    res.label(f"n={n}", f"comp={comp}", "envpath", f"episodes={len(case['episodes'])}")
+    return res
+
+
+@st.composite
+def envpath_cases(draw, n_min: int, n_max: int):
+    n = draw(st.integers(n_min, n_max))
+    sam = draw(st.integers(0, 2)) == 0
+    k = draw(st.integers(2, 3))
+    games = []
+    for _ in range(k):
+        g = draw(sam_games(n, n)) if sam else draw(superadditive_games(n, n))
+        games.append({"kind": "table", "n": n, "v": g["v"], "cls": g["cls"], "how": g["how"]})
+    comp = draw(st.sampled_from(["sam_apx_1", "sam_apx_3"] if sam else ["superadditive", "superadditive_cached"]))
+    nact = (1 << n) - n - 2
+    episodes = [list(draw(st.permutations(list(range(nact)))))[:draw(st.integers(1, nact))] for _ in range(draw(st.integers(2, 3)))]
+    return {"kind": "envpath", "game": {"n": n, "cls": "mixed", "how": "env", "v": []}, "games": games, "computer": comp,
+            "gap": draw(st.sampled_from(list(GAPS))), "episodes": episodes}
+
+
 @st.composite
 def lattice_cases(draw, n: int, sam: bool):
     if sam:
@@ -173,6 +240,12 @@ def _sample(case):
     return c
 
 
+def _sample_env(case):
+    c = dict(case)
+    c["games"] = [{k: (v if k != "v" or len(v) <= 16 else v[:16] + ["..."]) for k, v in g.items()} for g in case["games"][:2]]
+    return c
+
+
 def plan(tier: str) -> list[dict]:
     if tier == "quick":
         return [{"mode": "lattice", "n": 3, "sam": False, "examples": 30, "cost": 1},
@@ -183,12 +256,14 @@ def plan(tier: str) -> list[dict]:
                 {"mode": "lattice", "n": 4, "sam": True, "examples": 4, "cost": 3},
                 {"mode": "path", "min_n": 5, "max_n": 5, "examples": 120, "cost": 3},
                 {"mode": "path", "min_n": 5, "max_n": 5, "examples": 120, "cost": 3},
-                {"mode": "path", "min_n": 5, "max_n": 6, "examples": 60, "cost": 3}]
+                {"mode": "path", "min_n": 5, "max_n": 6, "examples": 60, "cost": 3},
+                {"mode": "envpath", "min_n": 3, "max_n": 5, "examples": 100, "cost": 3}]
     return ([{"mode": "lattice", "n": 3, "sam": s, "examples": 400, "cost": 2} for s in (False, True)]
             + [{"mode": "lattice", "n": 4, "sam": False, "examples": 40, "cost": 10} for _ in range(5)]
             + [{"mode": "lattice", "n": 4, "sam": True, "examples": 30, "cost": 10} for _ in range(3)]
             + [{"mode": "path", "min_n": 5, "max_n": 6, "examples": 300, "cost": 8} for _ in range(5)]
-            + [{"mode": "path", "min_n": 7, "max_n": 7, "examples": 12, "cost": 8}])
+            + [{"mode": "path", "min_n": 7, "max_n": 7, "examples": 12, "cost": 8}]
+            + [{"mode": "envpath", "min_n": 3, "max_n": 5, "examples": 600, "cost": 8} for _ in range(2)])
 
 
 def run_shard(spec: dict, ctx: Ctx) -> None:
@@ -196,5 +271,7 @@ def run_shard(spec: dict, ctx: Ctx) -> None:
         ctx.run_given(lattice_cases(spec["n"], spec["sam"]), check_case, spec["examples"], sample_of=_sample)
         n = spec["n"]
         ctx.extra["exhaustive_parts"] = [f"every knowledge set and every lattice edge of n={n} for each drawn game"]
+    elif spec["mode"] == "envpath":
+        ctx.run_given(envpath_cases(spec["min_n"], spec["max_n"]), check_case, spec["examples"], sample_of=_sample_env)
     else:
         ctx.run_given(path_cases(spec["min_n"], spec["max_n"]), check_case, spec["examples"], sample_of=_sample)
